@@ -469,6 +469,7 @@ class Session:
         yield from self.host.idle(self.rng.randint(1, 4) if data_gap is None else data_gap)
         yield from self.host.data(U.DATA0, s8)
         r = yield from self._response()
+        self.last_setup_response = r
         if ours:
             ok = self.ref.on_setup(s8, r, self.b.cycle)
             yield from self.host.gap()
@@ -642,13 +643,16 @@ class Session:
             self.ref.on_foreign_ack(self.b.cycle)
             yield from self.host.gap()
         elif kind == "own_setup_other_ep":
-            # SETUP transaction to this device's address, endpoint != 0 (its answer is not judged); it looks like a
-            # request endpoint 0 would serve
+            # SETUP transaction to this device's address, endpoint != 0: must not be answered and must not touch the
+            # transfer in progress on endpoint 0; it looks like a request endpoint 0 would serve
             e = rng.choice([self.BULK_IN_EP, self.BULK_OUT_EP, 5, 8])
             s8 = rng.choice([GET_DESCRIPTOR(1, 0, 18), GET_DESCRIPTOR(2, 0, 64), SET_ADDRESS(rng.randrange(1, 128)),
                              SET_CONFIGURATION(1), VENDOR(True, rng.randrange(256), 4)])
             self.ref.on_setup_other_endpoint()
             yield from self.w_setup(a, s8, ep=e)
+            if self.last_setup_response["kind"] != "timeout":
+                # endpoint 0 is the only control endpoint of the device: nobody may answer this transaction
+                self._viol("setup_for_other_endpoint_answered", "SETUP to endpoint %d answered with %s" % (e, brief(self.last_setup_response)))
             if self.ref.cur is None or self.ref.cur.done:
                 yield from self.w_in(a, 0, "none")      # no transfer on ep0: this IN must not carry data (rule i)
         elif kind == "other_ep_ping":
